@@ -16,9 +16,11 @@ import (
 	"github.com/sdcio/data-server/pkg/config"
 	schemaClient "github.com/sdcio/data-server/pkg/datastore/clients/schema"
 	"github.com/sdcio/data-server/pkg/datastore/types"
+	"github.com/sdcio/data-server/pkg/utils"
 	"github.com/sdcio/data-server/pkg/utils/testhelper"
 	sdcpb "github.com/sdcio/sdc-protos/sdcpb"
 	"go.uber.org/mock/gomock"
+	"google.golang.org/protobuf/proto"
 )
 
 func TestVerifReplayIntents(t *testing.T) {
@@ -124,6 +126,33 @@ func TestVerifReplayIntents(t *testing.T) {
 		for vn, v := range values {
 			try(fmt.Sprintf("update path=%s, value=%s", pn, vn), &sdcpb.TransactionIntent{Intent: "i", Priority: 5, Update: []*sdcpb.Update{{Path: p, Value: v}}})
 		}
+	}
+	// what a device sends: notifications through the same converter (storeSyncMsg -> ConvertNotificationTypedValues)
+	nfns := []string{"(*utils.Converter).ConvertNotificationTypedValues", "utils.convertUpdateTypedValue", "utils.TypedValueToYANGType"}
+	conv := utils.NewConverter(d.schemaClient)
+	m := 0
+	for pn, p := range paths {
+		for vn, v := range values {
+			m++
+			in := fmt.Sprintf("notification update path=%s, value=%s", pn, vn)
+			func() {
+				defer func() {
+					if r := recover(); r != nil {
+						for _, fn := range nfns {
+							fmt.Printf("REPLAY-FAIL fn=%s clause=panic input=%s panic=%v\n", fn, in, r)
+						}
+					}
+				}()
+				var cp *sdcpb.Path
+				if p != nil {
+					cp = proto.Clone(p).(*sdcpb.Path)
+				}
+				conv.ConvertNotificationTypedValues(ctx, &sdcpb.Notification{Update: []*sdcpb.Update{{Path: cp, Value: v}}})
+			}()
+		}
+	}
+	for _, fn := range nfns {
+		fmt.Printf("REPLAY-CASES fn=%s n=%d\n", fn, m)
 	}
 	try("nil update in the list", &sdcpb.TransactionIntent{Intent: "i", Priority: 5, Update: []*sdcpb.Update{nil}})
 	try("no updates, delete flag", &sdcpb.TransactionIntent{Intent: "i", Priority: 5, Delete: true})
